@@ -1,7 +1,7 @@
 (* C09 — a failing sensor or fan read/write never crashes the daemon.
    This file holds only the property theorems; each is closed by [exact]. *)
 From Coq Require Import ZArith Bool List.
-From F2G Require Import gen.Consts Model.Restore Proofs.Restore Model.Faults Proofs.Faults.
+From F2G Require Import gen.Consts Model.Restore Proofs.Restore Model.Faults Proofs.Faults Model.Daemon Proofs.Daemon.
 Import ListNotations.
 Open Scope Z_scope.
 
@@ -30,6 +30,22 @@ Theorem C09_continues :
     exists s, run repaired cb orig d0 plan = Regulating s.
 Proof. exact run_continues. Qed.
 Print Assumptions C09_continues.
+
+(* process level: whatever a controller's start-up step or control cycle returns
+   (errors included), a sensor monitor returning an error, any signals: the
+   process never panics (every schedule of Model/Daemon.v) *)
+Theorem C09_process_no_crash :
+  forall fans nmons sched,
+    forallb ev_detectable sched = true ->
+    forall site, st (exec repaired (init fans nmons) sched) <> Crashed site.
+Proof. exact (fun fans nmons sched D => proj1 (process_safe fans nmons sched D)). Qed.
+Print Assumptions C09_process_no_crash.
+
+(* D4 as found: a controller whose Run returns an error panics the process *)
+Theorem C09_process_d4_refuted :
+  st (exec d4_only (init two_fans 1) sched_init_fails) = Crashed 4.
+Proof. exact (proj1 process_d4_refuted). Qed.
+Print Assumptions C09_process_d4_refuted.
 
 (* the code as found *)
 Theorem C09_d5_refuted :
